@@ -32,6 +32,7 @@ ASSUMPTIONS = [
     "utility levels are >= 1 K apart per side on the real and the shifted scale, so no tie decides the allocation order",
 ]
 
+RENAME_POOL = ["Plant", "Old Plant", "A", "AA", "BA", "Line 1", "Extrusion Line 1", "North", "South", "Area 51"]
 TRANSFORMS = ["permute", "split", "parallel", "translate", "scale", "rename", "mirror"]
 
 
@@ -90,8 +91,31 @@ def apply(case, tr):
         labels = sorted({s["zone"] for s in t["streams"]})
         comps = sorted({c for l in labels for c in l.split("/")})
         m = {c: f"R{j}x" for j, c in enumerate(comps)}
+        if tr.get("pool") and len(comps) <= len(RENAME_POOL):
+            # new names of which some are string suffixes (not path suffixes) of others: 'Plant' / 'Old Plant', 'A' / 'AA' / 'BA'
+            m = {c: RENAME_POOL[tr["pool"][j]] for j, c in enumerate(comps)}
         for s in t["streams"]:
             s["zone"] = "/".join(m[c] for c in s["zone"].split("/"))
+        if t.get("zone_tree"):
+            def ren(node, root=False):
+                return {"name": node["name"] if root else m.get(node["name"], node["name"]), "type": node["type"], "children": [ren(c) for c in node.get("children") or []] or None}
+
+            t["zone_tree"] = ren(t["zone_tree"], True)
+            names = []
+
+            def collect(node):
+                names.append(node["name"])
+                for c in node.get("children") or []:
+                    collect(c)
+
+            collect(t["zone_tree"])
+            form = tr.get("form", "relative")
+            for s in t["streams"]:
+                comps_s = s["zone"].split("/")
+                if form == "full":
+                    s["zone"] = "/".join([t["zone_tree"]["name"]] + comps_s)
+                elif form == "leaf" and names.count(comps_s[-1]) == 1:
+                    s["zone"] = comps_s[-1]  # the bare zone name resolves to exactly one node of the tree
         eff["names"] = m
     elif kind == "mirror":
         for s in t["streams"] + t["utilities"]:
@@ -132,6 +156,10 @@ def eval_case(case) -> Outcome:
     out = Outcome()
     base, tr = case["base"], case["transform"]
     out.labels.add("t:" + tr["kind"])
+    if tr["kind"] == "rename" and case["base"].get("zone_tree"):
+        out.labels.add("rename+explicit-tree:" + tr.get("form", "relative"))
+    if tr["kind"] == "rename" and tr.get("pool"):
+        out.labels.add("rename+string-suffix-names")
     if tr.get("zero"):
         out.labels.add("translated-onto-0.0")
     twin, eff = apply(base, tr)
@@ -315,7 +343,7 @@ def pair(draw, tier):
             s["t_target"] = round(s["t_supply"] + 0.01, 6)  # the latent shorthand is directional: write it out
     us = draw(ladder(pal))
     base = {"streams": ss, "utilities": us}
-    kind = draw(st.sampled_from(TRANSFORMS + ["mirror", "mirror", "parallel"]))
+    kind = draw(st.sampled_from(TRANSFORMS + ["mirror", "mirror", "parallel", "rename"]))
     loop_split = False
     if draw(st.integers(0, 3)) == 0:
         # a ladder with a long-glide level (a hot-oil / hot-water loop) whose duty is limited by its slope: the next level
@@ -353,6 +381,19 @@ def pair(draw, tier):
             tr["zero"] = True
     elif kind == "scale":
         tr["k"] = draw(st.sampled_from([0.1, 0.5, 2.0, 3.0, 10.0]))
+    elif kind == "rename":
+        if draw(st.integers(0, 3)) > 0:
+            # the first two components always receive a related pair ('Plant' / 'Old Plant', 'A' / 'AA', ...), in either order
+            a, b = draw(st.sampled_from([(0, 1), (2, 3), (2, 4), (5, 6), (1, 0), (3, 2), (4, 2), (6, 5)]))
+            rest = [k for k in range(len(RENAME_POOL)) if k not in (a, b)]
+            tr["pool"] = [a, b] + list(draw(st.permutations(rest)))
+        if draw(st.booleans()):
+            # both twins carry the hierarchy as an explicit zone tree (process zones; labelled nodes are leaves); the renamed twin
+            # names its zones by full path, by path below the root, or by the bare zone name
+            from .c01 import with_explicit_tree
+
+            base = draw(with_explicit_tree(st.just(base)))
+            tr["form"] = draw(st.sampled_from(["full", "relative", "leaf", "leaf"]))
     return {"base": base, "transform": tr}
 
 
